@@ -74,6 +74,22 @@ func c14(raw json.RawMessage, resp *drv.Response) error {
 			if len(resp.Samples) < 4 {
 				resp.Sample(map[string]any{"b": c.B, "resp": c.Resp, "mode": c.Mode, "outcome": out})
 			}
+			// where the width check is carried out by prover-supplied digits (the bit-decomposition mechanism) or limbs, a response
+			// that is too large must also be rejected for the digit string "everything in digit 0" and the limb pair (0, x)
+			if want == "reject" && c.Mode == "plain" {
+				for _, strat := range []string{"nonbool", "lo-all"} {
+					cfg2 := &engine.Config{Mode: modeOf(c.Mode), Permissive: true, Strategy: limbStrategy(strat)}
+					err2 := hc.Run(cfg2, in, func(api frontend.API, iv []frontend.Variable) error {
+						newFriChip(api).VerifAssertLeadingZeros(gl.NewVariable(iv[0]), types.FriConfig{ProofOfWorkBits: uint64(c.B)})
+						return nil
+					})
+					resp.Count(fmt.Sprintf("pow/%s/%d/%s/%s", c.Mode, c.B, c.Resp, strat), cfg2.Counters["subst"] == 0)
+					if cfg2.Counters["subst"] > 0 && err2 == nil {
+						resp.Violate(fmt.Sprintf("c14/gadget/accept-instead-of-reject mode=%s strat=%s", c.Mode, strat),
+							fmt.Sprintf("difficulty %d, response %s (%d leading zeros): accepted when the prover supplies the %s decomposition", c.B, c.Resp, 64-x.BitLen(), strat), c)
+					}
+				}
+			}
 		}
 	case "witness":
 		o, err := loadOracle(req.oracleFiles)
